@@ -15,6 +15,7 @@ RULE = ('the real ErrorEstimator.sobolev_space / sobolev_time / weighted_l2 / es
         'neighbours; (c) a quarter turn of the unit square applied to mesh and residual permutes the indicators (1e-10); (d) '
         'estimate_sobolev (neighbour-symmetry shortcut) equals the per-element sums (1e-12), pool with 1..16 workers equals serial bit for '
         'bit, weighted_l2 equals h_t^-1/2, h_x^-1 times the exact squared L2 norm. distinct = distinct (curve, mesh, element, neighbour, order, residual)')
+RULE += ' ' + 'In half of the cases the H^1/4 (time) and H^1/2 (space) orders differ and the polynomial degrees sit at the top of each exactness range.'
 ASSUMPTIONS = [
     'exactness range: Slobodeckij order N is exact for degree <= (N-1)/2, the outer Gauss order N_outer integrates degree <= N_outer',
     'general smooth residuals: 1e-4 at order >= 17 as stated in the property; lower orders are not judged for them; the trigonometric '
@@ -24,7 +25,7 @@ ASSUMPTIONS = [
 ]
 REQUIRED = {t: ['ind:sobolev_space', 'ind:sobolev_time', 'ind:weighted_l2', 'patch:same-piece', 'patch:corner', 'patch:seam', 'patch:circle',
                 'patch:circle-seam', 'patch:self', 'residual:polynomial', 'residual:trigonometric', 'order:1', 'order:19', 'rel:shortcut',
-                'rel:pool', 'rel:symmetry', 'rel:neighbour-set', 'rel:list-order', 'rel:pool-history', 'curve:UnitSquare', 'curve:PiSquare', 'curve:LShape', 'curve:Circle']
+                'rel:pool', 'rel:symmetry', 'rel:neighbour-set', 'rel:list-order', 'rel:pool-history', 'orders:time!=space', 'curve:UnitSquare', 'curve:PiSquare', 'curve:LShape', 'curve:Circle']
             for t in ('quick', 'thorough')}
 TIMEOUT = {'quick': 1500, 'thorough': 7200}
 CURVES = ['UnitSquare', 'PiSquare', 'LShape', 'Circle']
@@ -175,9 +176,15 @@ def run_patch(spec, acc):
         if e is sample[-1]:
             N = 19
         N_outer = rng.choice([o for o in orders if o >= 3])
-        dmax = (N - 1) // 2
-        dt = rng.randint(0, min(dmax, N_outer // 2))
-        dx = rng.randint(0, min(dmax, N_outer // 2))
+        # the H^{1/4} (time) and H^{1/2} (space) orders are separate arguments: different in half of the cases, and then the degrees are
+        # taken at the top of each exactness range, so that an order handed to the wrong rule shows
+        N_time = N if rng.random() < 0.5 else rng.choice(orders)
+        dt = rng.randint(0, min((N_time - 1) // 2, N_outer // 2))
+        dx = rng.randint(0, min((N - 1) // 2, N_outer // 2))
+        if N_time != N:
+            acc.seen('orders:time!=space')
+            dt = min((N_time - 1) // 2, N_outer // 2)
+            dx = min((N - 1) // 2, N_outer // 2)
         ct = [Fr(rng.randint(-4, 4), rng.randint(1, 3)) for _ in range(dt + 1)]
         cx = [Fr(rng.randint(-4, 4), rng.randint(1, 3)) for _ in range(dx + 1)]
         if all(c == 0 for c in ct):
@@ -195,8 +202,8 @@ def run_patch(spec, acc):
         cx_abs = shift_scale(cx, -xm, Fr(1))     # q(x) := qc(x - xm)
         ct_abs = shift_scale(ct, -tm, Fr(1))
         res = poly_residual([float(c) for c in ct], [float(c) for c in cx], float(tm), float(xm))
-        EE = ErrorEstimator(mesh, N_poly=(N_outer, N_outer, N, N))
-        w = dict(wit0, elem=ekey(e), orders=(N_outer, N_outer, N, N), ct=[str(c) for c in ct], cx=[str(c) for c in cx])
+        EE = ErrorEstimator(mesh, N_poly=(N_outer, N_outer, N_time, N))
+        w = dict(wit0, elem=ekey(e), orders=(N_outer, N_outer, N_time, N), ct=[str(c) for c in ct], cx=[str(c) for c in cx])
         acc.seen('order:%d' % N)
         try:
             tot_s, ips_s = EE.sobolev_space(e, res)
@@ -267,7 +274,7 @@ def run_patch(spec, acc):
             acc.worst_of('sobolev_time polynomial rel.err', err)
             if want > 0 and err > 1e-8 or (want == 0 and abs(val) > 1e-20):
                 acc.violation('sobolev-time-patch-wrong', '%s: patch (%r, %r): %r, definition %r (rel %.2e, order %d)' %
-                              (curve, ekey(e), ekey(nb), val, want, err, N), dict(w, nbr=ekey(nb)))
+                              (curve, ekey(e), ekey(nb), val, want, err, N_time), dict(w, nbr=ekey(nb)))
         # ---- (a') trigonometric residual in embedded coordinates, order 17/19, graded reference with Euclidean distances
         if n_trig < spec['n_trig']:
             n_trig += 1
